@@ -980,6 +980,17 @@ func atomUnit(u Unit) bool {
 	return false
 }
 
+// UsesPrimaryKeyValue: some unit (at any depth) is a bare primary-key value, which gorm can only
+// turn into a condition when the statement has a schema.
+func UsesPrimaryKeyValue(cs []Call) bool {
+	for _, c := range cs {
+		if strings.HasPrefix(c.Unit.Via, "pk") || UsesPrimaryKeyValue(c.Unit.Calls) {
+			return true
+		}
+	}
+	return false
+}
+
 // IsEmptyUnit: the unit adds no condition.
 func IsEmptyUnit(u Unit) bool { return emptyUnit(u) }
 
